@@ -73,6 +73,10 @@ def astproof(pid: str, func: str, props: List[str], file: str = AST, must=None, 
                 res.error = "target not found: %r" % (e,)
             except EN.Unsupported as e:
                 res.error = "unsupported construct: %s" % (e,)
+                try:
+                    res.obls = E.obls       # keep what was generated before the engine gave up (refutations still count)
+                except NameError:
+                    pass
             except Exception as e:
                 res.error = "engine exception: %r\n%s" % (e, traceback.format_exc(limit=-6))
             return res
